@@ -5,6 +5,10 @@ every model kind / noise structure on random tiny cohorts with random missingnes
 perturbed pre-step states) against `Model/MStep.lean` through `drivers/C04.lean`.  The Lean model is fed the exact
 rationals of the float32 statistics; variances (never square roots) are compared within a float32 envelope.
 The property predicate itself is evaluated independently with numpy (float64).
+Mixture model: every rule of `models/mixture.py` (`compute_ind_param_mean_from_suff_stats_mixture`,
+`compute_ind_param_std_from_suff_stats_mixture(_burn_in)`, `compute_probs_from_state`) is compared with `MixRule.apply`
+(request `mixstep`): exact rationals of the float32/float64 inputs, exponentials of the softmax computed by numpy; envelopes
+derived from the dtypes actually used and the number of operations.
 """
 from __future__ import annotations
 
@@ -26,18 +30,32 @@ LEAN = dict(
               "noiseVarDiag_eq_rms", "noiseVarScalar_eq_rms", "noiseVarScalarOld_partial",
               "noiseVarScalarOld_counterexample", "softmaxRow_sum_one", "mixtureProbs_sum_one",
               "updateAll_reads_old", "updateAll_order_irrelevant", "updateAll_pointwise", "step_order_irrelevant",
-              "updateSeq_differs"],
+              "updateSeq_differs",
+              # mixture rules
+              "mixMean_first_order", "mixMean_sqdev_identity", "mixMean_minimises", "mixMean_unique_minimiser",
+              "mixMean_in_hull", "mixVarDoc_nonneg", "mixVar_eq_meansq", "mixVar_nonneg", "mixAvgConst_cancels",
+              "mixVar_not_weighted_counterexample", "mixVar_weighted_partial", "mixVar_minus_doc",
+              "mixMean_single_cluster", "mixVar_single_cluster", "mixAvgConst_single_cluster", "mixStdVarE_of_guard",
+              "mixStd_no_collapse_guard", "resp_in_unit", "mixtureProbs_eq_mean_resp", "mixtureProbs_in_unit",
+              "mixtureProbs_single_cluster", "mixMeanE_ok_iff", "mixMeanE_eq", "mixMeanE_zero_total",
+              "total_resp_pos_iff", "mixStdVarE_ok_iff", "mixMeans_defined_iff", "resp_total_pos",
+              "emptied_cluster_example", "mixStep_reads_old", "mixStep_order_irrelevant", "mixMean_ignores_stats",
+              "mixProbs_ignores_stats", "mixStd_ignores_latents", "mixSeq_differs"],
     trusted_extra=[
         "theorems are over an ordered field (exact arithmetic); the implementation computes in float32: compared through "
         "an explicit envelope K*eps32*(sum of magnitudes of the terms of the formula), K=64",
         "sqrt is never evaluated by the model: std**2 of the implementation is compared with the model's variance",
-        "softmax exponentials of the mixture rule are computed by numpy (float64) and handed to the model",
+        "softmax exponentials of the mixture rules are computed by numpy (float64) from the recorded "
+        "nll_regul_ind_sum_ind (clamped at -100 by the harness as the code does) and handed to the model",
+        "mixture rules: envelopes are (operation count) * eps(dtype actually used) * (magnitudes), plus the propagated relative "
+        "error (K + 4 + max|z - zmax|) * eps(dtype of nll) of the responsibilities",
     ],
     assumptions=[
         "scalar noise rule is modelled after repair F3 (fixes/F3.patch); on a tree without the patch the scalar-noise cases "
         "with a feature missing inside a visit fail",
-        "mixture model: only `probs`, population means and the noise rule are compared with the Lean model; the other mixture "
-        "rules read the current latent values (not the statistics) and are only checked for batched == alone-from-pre-state",
+        "mixture std rule is modelled as coded (F26: unweighted dispersion of all individuals about the pre-step cluster "
+        "mean, no collapse guard); the documented responsibility-weighted dispersion is evaluated on every step and its "
+        "failure is classified F26 only when the value equals the coded closed form",
     ],
 )
 
@@ -223,6 +241,82 @@ def env_tol(*magnitudes):
     return K_ENV * EPS32 * sum(abs(float(m)) for m in magnitudes) + 1e-30
 
 
+def eps_of(env, *dtypes):
+    """machine epsilon of the dtype torch promotes the given dtypes to"""
+    torch = env.torch
+    dt = dtypes[0]
+    for d in dtypes[1:]:
+        dt = torch.promote_types(dt, d)
+    return float(torch.finfo(dt).eps), float(torch.finfo(dt).tiny) * float(torch.finfo(dt).eps)  # eps, smallest denormal
+
+
+def responsibilities(env, pre):
+    """`Softmax(dim=1)(clamp(-nll_regul_ind_sum_ind, -100))` recomputed in numpy float64 from the recorded pre-step state.
+    Returns exponentials `e` (n, K; row maximum 1), responsibilities `r`, and the error model of the implementation's own
+    responsibilities: relative `delta`, absolute `tiny` (denormal spacing of the dtype of nll)."""
+    np = env.np
+    t = tens(env, pre["nll_regul_ind_sum_ind"])
+    nll = t.detach().double().numpy()
+    z = np.clip(-nll, -100.0, None)
+    zmax = z.max(axis=1, keepdims=True)
+    e = np.exp(z - zmax)
+    eps, tiny = eps_of(env, t.dtype)
+    with np.errstate(all="ignore"):
+        spread = float((zmax - z).max()) if z.size else 0.0
+    return dict(e=e, r=e / e.sum(axis=1, keepdims=True), dtype=t.dtype, tiny=tiny,
+                delta=(z.shape[1] + 4 + spread) * eps)
+
+
+def mixture_expected(env, r, p, kind, var, burn):
+    """Closed forms of the mixture rules (numpy float64) for parameter `p`: (kind, expected, tolerance, documented-form or None).
+    Means: responsibility-weighted mean of the *current* latent values.  Std (as a variance): the form the code uses
+    (Model/MStep.lean `mixVar` / `indVarBurnIn`); the documented responsibility-weighted dispersion is returned as well."""
+    np = env.np
+    pre, S = r["pre"], r["S"]
+    R = responsibilities(env, pre)
+    rr, n, K = R["r"], R["r"].shape[0], R["r"].shape[1]
+    tot = rr.sum(axis=0)                                   # (K,)
+    lat_t = tens(env, pre[var])
+    x = lat_t.detach().double().numpy().reshape(n, -1)     # (n, d)
+    eps_o, _ = eps_of(env, lat_t.dtype, R["dtype"])
+    shape = tuple(pre[p].shape)
+    with np.errstate(all="ignore"):
+        if kind == "imean":
+            v = np.einsum("ic,ij->jc", rr, x) / tot            # (d, K)
+            maxdev = np.abs(x[:, :, None] - v[None, :, :]).max(axis=0)
+            tol = 2 * maxdev * (R["delta"] + n * R["tiny"] / tot) + (2 * n + 8) * eps_o * np.abs(x).max(axis=0)[:, None] + 1e-300
+            return ("mmean", v.reshape(shape), tol.reshape(shape), None)
+        # std rules (scalar individual variables only: tau, xi)
+        if burn:
+            xs = x.reshape(n)
+            v0 = xs.var(ddof=1) if n > 1 else float("nan")
+            eps_v, _ = eps_of(env, lat_t.dtype)
+            v = np.full(K, v0)
+            tol = np.full(K, (2 * n + 16) * eps_v * (v0 + np.abs(xs).max() * np.sqrt(v0)) + 4 * (n + 4) * eps_o * v0 + 1e-300)
+            wm = (rr * xs[:, None]).sum(axis=0) / tot
+            doc = (rr * (xs[:, None] - wm[None, :]) ** 2).sum(axis=0) / tot * (n / (n - 1) if n > 1 else float("nan"))
+        else:
+            s1_t, s2_t, mu_t = tens(env, S[var]), tens(env, S[var + "_sqr"]), pre[var + "_mean"]
+            x1 = s1_t.detach().double().numpy().reshape(n)
+            x2 = s2_t.detach().double().numpy().reshape(n)
+            mu = mu_t.detach().double().numpy().reshape(K)
+            m1, m2 = x1.mean(), x2.mean()
+            v = m2 - 2 * mu * m1 + mu ** 2
+            # term by term, each in the dtype torch uses for it: `torch.mean(x²)` (dtype of the statistic, n additions),
+            # `2 * old_mean * torch.mean(x)` (promoted), `old_mean ** 2` (dtype of the parameter: float32 at the first
+            # iteration), three additions in the promoted dtype, then sqrt and the weighted average (4(n+4) roundings)
+            eps_v, _ = eps_of(env, s1_t.dtype, s2_t.dtype, mu_t.dtype)
+            e1, e2, em = eps_of(env, s1_t.dtype)[0], eps_of(env, s2_t.dtype)[0], eps_of(env, mu_t.dtype)[0]
+            tol = ((n + 1) * e2 * abs(m2) + ((n + 1) * e1 + 3 * eps_v) * 2 * np.abs(mu * m1) + 2 * em * mu ** 2
+                   + 3 * eps_v * (abs(m2) + 2 * np.abs(mu * m1) + mu ** 2) + 4 * (n + 4) * max(eps_o, eps_v) * np.abs(v) + 1e-300)
+            doc = (rr * (x2[:, None] - 2 * mu[None, :] * x1[:, None] + mu[None, :] ** 2)).sum(axis=0) / tot
+        v = np.where(v < -tol, float("nan"), v)            # `ip_var.sqrt()` of a negative variance is nan (no guard in this rule)
+        # `(probs_ind * std).sum(0) / probs_ind.sum(0)`: nan responsibilities (a collapsed std made the regularity nan at an
+        # earlier step) or an emptied cluster (0/0) propagate to the result
+        v = np.where(np.isfinite(tot) & (tot > 0), v, float("nan"))
+        return ("mstd", v.reshape(shape), tol.reshape(shape), doc.reshape(shape))
+
+
 def expected_values(env, case, dataset, r, fresh):
     """Closed forms computed independently (numpy float64) from the pre-step state, the statistics and the dataset.
     Returns {param: (kind, expected array (means / variances), tolerance array)}; variances for istd / noise."""
@@ -236,6 +330,11 @@ def expected_values(env, case, dataset, r, fresh):
         if kind == "pop":
             x = f64(env, S[var])
             out[p] = ("pop", x, np.zeros_like(x))
+        elif kind in ("imean", "istd") and mixture:
+            k2, v, tol, doc = mixture_expected(env, r, p, kind, var, burn)
+            out[p] = (k2, v, tol)
+            if doc is not None:
+                r.setdefault("doc_std", {})[p] = doc
         elif kind == "imean" and not mixture:
             x = f64(env, S[var])
             out[p] = ("imean", x.mean(axis=0), 8 * EPS32 * np.abs(x).max(axis=0) + 1e-30)
@@ -299,13 +398,34 @@ def check_step(env, chk, case, dataset, r, fresh, label):
     chk.tag("step_outcome", "ok")
     for p, (kind, v, tol) in exp.items():
         got = new[p].detach().double().numpy()
-        if kind in ("istd", "noise"):
+        if kind in ("istd", "noise", "mstd"):
             got = np.atleast_1d(got) ** 2
             got = got.reshape(v.shape) if got.size == v.size else np.broadcast_to(got, v.shape)
         else:
             got = got.reshape(v.shape)
         with np.errstate(all="ignore"):
             bad = ~((np.abs(got - v) <= tol) | (np.isnan(got) & np.isnan(v)))
+            if kind == "mstd":
+                # a variance within rounding of 0 may come out negative (-> nan) in the implementation: ambiguous, counted
+                amb = np.isnan(got) & (np.abs(v) <= tol)
+                if bool(amb.any()):
+                    chk.tag("ambiguous_threshold", p)
+                bad &= ~amb
+                # the *documented* closed form: responsibility-weighted dispersion of the cluster
+                doc = r["doc_std"][p]
+                bad_doc = ~((np.abs(got - doc) <= tol) | (np.isnan(got) & np.isnan(doc)))
+                chk.tag("mixture_std_vs_weighted_dispersion", "differs" if bool(bad_doc.any()) else "equal-within-envelope")
+                if not bool(bad_doc.any()):
+                    # the documented form holds: the property is satisfied whatever the coded form is (if the code was
+                    # repaired the model comparison below reports that the model no longer corresponds)
+                    bad[...] = False
+                if bool(bad_doc.any()) and not bool(bad.any()):
+                    # F26: the value is exactly the coded closed form (unweighted dispersion of all individuals about the
+                    # pre-step cluster mean), not the responsibility-weighted one
+                    i = int(np.argmax(bad_doc.ravel()))
+                    chk.impl_failure(cj, f"{p}: prior std of cluster {i} is {float(np.sqrt(got.ravel()[i])):.6g} = dispersion of ALL "
+                                         f"individuals about the pre-step cluster mean; responsibility-weighted dispersion of the "
+                                         f"cluster is {float(np.sqrt(max(doc.ravel()[i], 0.0))):.6g}", finding="F26")
         if bool(bad.any()):
             fid = None
             if kind == "noise" and case["noise"] == "scalar" and within_visit_missing:
@@ -316,6 +436,9 @@ def check_step(env, chk, case, dataset, r, fresh, label):
                              "prior variance is not mean(x^2) - 2*old_mean*mean(x) + old_mean^2"),
                     "noise": ("noise variance is not the mean squared residual over observed entries" if fresh else
                               "noise variance is not (y_L2 - 2*sum_obs(y_x_model) + sum_obs(model_x_model)) / n_obs"),
+                    "mmean": "mixture prior mean is not the responsibility-weighted mean of the current latent values",
+                    "mstd": ("mixture prior std is not the Bessel-corrected dispersion of the current latent values (memory-less phase)"
+                             if r["burn"] else "mixture prior variance is not mean(x^2) - 2*old_cluster_mean*mean(x) + old_cluster_mean^2"),
                     "probs": "mixture probabilities are not the mean cluster responsibilities"}[kind]
             chk.impl_failure(cj, f"{p}: {what}: got {got.ravel()[:4].tolist()} expected {v.ravel()[:4].tolist()} "
                                  f"(tol {np.atleast_1d(tol).ravel()[:4].tolist()})", finding=fid)
@@ -323,6 +446,9 @@ def check_step(env, chk, case, dataset, r, fresh, label):
         s = float(new["probs"].double().sum())
         if abs(s - 1) > 16 * EPS32:
             chk.impl_failure(cj, f"mixture probabilities sum to {s!r}")
+        pr = new["probs"].double()
+        if not bool(((pr >= 0) & (pr <= 1) | torch.isnan(pr)).all()):   # nan: already compared with the expected value above
+            chk.impl_failure(cj, f"a mixture probability lies outside [0, 1]: {pr.tolist()}")
     if "noise_std" in new:
         n_state = r["pre"]["n_obs" if "n_obs" in r["pre"].dag else "n_obs_per_ft"]
         want = dataset.mask.sum() if n_state.ndim == 0 else dataset.mask.sum(dim=(0, 1))
@@ -354,8 +480,15 @@ def lean_line(env, case, dataset, r):
     pre, S, burn = r["pre"], r["S"], r["burn"]
     mixture = case["model"] == "mixture_logistic"
     kinds = rule_kinds(env, pre)
-    old, stats, rules, order = [], [], [], []
+    old, stats, rules, order, lat = [], [], [], [], []
     seen = set()
+
+    def add_lat(name):
+        if ("lat", name) in seen:
+            return
+        seen.add(("lat", name))
+        x = f64(env, pre[name])
+        lat.append(f"{name}:" + ";".join(frs(row) for row in x.reshape(x.shape[0], -1)))
 
     def add_stat(name):
         if name in seen or name not in S:
@@ -372,6 +505,17 @@ def lean_line(env, case, dataset, r):
         if kind == "pop":
             add_stat(var)
             rules.append(f"{p}:pop:{var}:0")
+        elif kind == "imean" and mixture:
+            add_lat(var)
+            rules.append(f"{p}:mmean:{var}:0")
+        elif kind == "istd" and mixture:
+            add_lat(var)
+            add_stat(var)
+            add_stat(var + "_sqr")
+            old.append(f"{var}_mean:" + frs(f64(env, pre[var + "_mean"]).reshape(-1)))
+            rules.append(f"{p}:mstd:{var}:0")
+        elif kind == "probs" and mixture:
+            rules.append(f"{p}:mprobs:{int(pre[p].numel())}:0")
         elif kind == "imean" and not mixture:
             add_stat(var)
             rules.append(f"{p}:imean:{var}:0")
@@ -387,6 +531,11 @@ def lean_line(env, case, dataset, r):
             continue
         order.append(p)
     line = f"step burn={int(burn)} old={'|'.join(old) or '_'} stats={'|'.join(stats) or '_'} rules={'|'.join(rules) or '_'}"
+    if mixture:
+        e = responsibilities(env, pre)["e"]
+        if not bool(np.isfinite(e).all()):
+            raise ValueError("non-finite responsibilities")
+        line = "mix" + line + f" lat={'|'.join(lat) or '_'} expo=" + ";".join(frs(row) for row in e)
     if "noise_std" in kinds:
         y = dataset.values.double().numpy()
         w = dataset.mask.numpy() > 0
@@ -431,8 +580,16 @@ def compare_model(env, chk, items):
             if r["new"] is None:
                 continue  # handled below
             got = r["new"][p].detach().double().numpy().reshape(-1)
-            if kind in ("istd", "noise"):
+            if kind in ("istd", "noise", "mstd"):
                 got = got ** 2
+            if m in ("err:nan", "err:inf"):
+                # the model says torch stores a non-finite number (0/0 for an emptied cluster, sqrt of a negative variance)
+                if bool(np.isfinite(got).all()):
+                    if kind == "mstd" and bool((np.abs(np.atleast_1d(v)) <= np.atleast_1d(tol)).any()):
+                        chk.tag("ambiguous_threshold", p)
+                    else:
+                        chk.disagree(cj, got.tolist(), m, f"{p}: model gives a non-finite value, implementation does not")
+                continue
             if m.startswith("err"):
                 # model refuses (variance < tol) but the implementation went on: ambiguous only if within the envelope of tol
                 if kind in ("istd", "noise") and bool((np.abs(np.atleast_1d(v) - 1e-5) <= np.atleast_1d(tol)).any()):
@@ -450,10 +607,12 @@ def compare_model(env, chk, items):
             t = np.broadcast_to(np.atleast_1d(tol).reshape(-1), mv.shape)
             if kind == "pop":
                 ok = bool((got == mv).all())
+            elif kind == "mstd":
+                ok = bool(((np.abs(got - mv) <= t) | (np.isnan(got) & (np.abs(mv) <= t))).all())
             else:
                 ok = bool((np.abs(got - mv) <= t).all())
             if not ok:
-                chk.disagree(cj, got.tolist(), mv.tolist(), f"{p} ({kind}{', burn-in' if r['burn'] else ''}): beyond the float32 envelope {t.tolist()[:3]}")
+                chk.disagree(cj, got.tolist(), mv.tolist(), f"{p} ({kind}{', burn-in' if r['burn'] else ''}): beyond the envelope {t.tolist()[:3]}")
         if r["new"] is None:
             # implementation raised a convergence error: the model must raise for at least one parameter (or be within envelope)
             errs = [p for p in order if parts[p].startswith("err")]
@@ -512,18 +671,20 @@ def mixture_emptied_records(env, case, model, rec):
     if not rec or rec[-1]["new"] is None:
         return out
     base = rec[-1]
-    try:
+    for burn in (False, True):
         pre = base["pre"].clone(disable_auto_fork=True)
         mu = pre["tau_mean"].clone()
         mu[-1] = mu[-1] + 400.0
         pre["tau_mean"] = mu
-        work = pre.clone(disable_auto_fork=True)
-        with core.quiet():
-            type(model).update_parameters(work, base["S"], burn_in=False)
-        new = {p: work[p].detach().clone() for p in work.dag.sorted_variables_by_type[env.MP]}
-        out.append(dict(k=f"{base['k']}+emptied-cluster", pre=pre, S=base["S"], burn=False, new=new, err=None, probs_only=True))
-    except Exception as e:  # noqa  (degenerate responsibilities may make the other rules fail: outside the checked scope)
-        out.append(dict(k=f"{base['k']}+emptied-cluster", pre=None, S=None, burn=False, new=None, err=err_class(e), probs_only=True))
+        k = f"{base['k']}+emptied-cluster{'B' if burn else ''}"
+        try:
+            work = pre.clone(disable_auto_fork=True)
+            with core.quiet():
+                type(model).update_parameters(work, base["S"], burn_in=burn)
+            new = {p: work[p].detach().clone() for p in work.dag.sorted_variables_by_type[env.MP]}
+            out.append(dict(k=k, pre=pre, S=base["S"], burn=burn, new=new, err=None))
+        except Exception as e:  # noqa
+            out.append(dict(k=k, pre=pre, S=base["S"], burn=burn, new=None, err=err_class(e)))
     return out
 
 
@@ -545,7 +706,9 @@ def run_case(env, chk, case, items):
     chk.tag("fit_outcome", outcome)
     nb = case["n_burn"]
     mixture = case["model"] == "mixture_logistic"
-    extra = mixture_emptied_records(env, case, model, rec) if mixture else perturbed_records(env, case, model, rec)
+    extra = perturbed_records(env, case, model, rec)
+    if mixture:
+        extra = mixture_emptied_records(env, case, model, rec) + extra
     missing_inside = bool(((dataset.mask.sum(dim=2) > 0) & (dataset.mask.sum(dim=2) < dataset.mask.shape[2])).any())
     for r in rec + extra:
         k = r["k"]
@@ -590,8 +753,33 @@ def gen_cases(chk):
     return cases
 
 
+def f26_probe(env, chk):
+    """F26 witness on the real function: two well separated groups, hard responsibilities, pre-step cluster means at the
+    group centres.  Dispersion inside each cluster: 0.  The real rule returns sqrt(50) for both clusters."""
+    torch = env.torch
+    listed = [f for f in chk.findings if f.get("id") == "F26" and f.get("status") == "finding"]
+    try:
+        from leaspy.models.utilities import compute_ind_param_std_from_suff_stats_mixture as rule
+        x = torch.tensor([[0.0], [0.0], [10.0], [10.0]], dtype=torch.float64)
+        nll = torch.tensor([[0.0, 90.0], [0.0, 90.0], [90.0, 0.0], [90.0, 0.0]], dtype=torch.float64)
+        state = {"tau_mean": torch.tensor([0.0, 10.0], dtype=torch.float64), "nll_regul_ind_sum_ind": env.WT(nll)}
+        got = rule(state, x, x ** 2, ip_name="tau", dim=0).double().reshape(-1).tolist()
+    except Exception as e:  # noqa
+        chk.note(f"F26 probe could not run: {err_class(e)}")
+        return
+    chk.tag("F26_probe", "reproduces" if all(abs(g - 50 ** 0.5) < 1e-9 for g in got) else "differs")
+    if all(abs(g - 50 ** 0.5) < 1e-9 for g in got):
+        if listed:
+            chk.known_finding_reproduces("F26", f"tau = 0,0,10,10, responsibilities (1,0),(1,0),(0,1),(0,1), pre-step cluster means 0, 10: "
+                                                f"tau_std = {got} (dispersion of all individuals about each cluster mean); each cluster "
+                                                f"has dispersion 0")
+    elif listed:
+        chk.note(f"finding F26 no longer reproduces on its witness (tau_std = {got})")
+
+
 def finding_probe(env, chk):
     """F3 witness: scalar noise, a feature missing inside a visit."""
+    f26_probe(env, chk)
     for f in chk.findings:
         if f.get("id") == "F3" and f.get("status") == "finding":
             bad = [x for x in chk.impl_failures if x.get("finding") == "F3"]
@@ -606,7 +794,8 @@ def run(chk: core.Check):
     chk.rule = ("real short mcmc_saem fits (3-10 iterations, every burn-in length) of logistic / linear / shared-speed / joint / mixture "
                 "models with scalar and diagonal noise on generated cohorts of 3-8 subjects, 2-5 visits, 2-3 features with random "
                 "missing cells; every real maximisation step is recorded (pre-step state, statistics, new parameters) and two more "
-                "are produced by calling the real update_parameters on clones whose prior means were shifted. A case is non-trivial "
+                "are produced by calling the real update_parameters on clones whose prior means were shifted (mixture: two more, in "
+                "both phases, on clones whose last cluster was emptied by shifting its mean reference time by 400 years). A case is non-trivial "
                 "when it has >= 2 steps and at least one step after the memory-less phase; distinct by full configuration.")
     cases = [c for c in core.load_corpus(PROP) if isinstance(c, dict) and "model" in c] + gen_cases(chk)
     items = []
